@@ -1369,3 +1369,307 @@ mod resp {
 }
 pub use resp::run as resp;
 pub use resp::sweep as resp_sweep;
+
+// ------------------------------------------------------------------ C17
+mod mock {
+    use super::*;
+    use crate::doubles::public_keys;
+    use crate::signer;
+    use futures::future::BoxFuture;
+    use futures::prelude::*;
+    use mock_omaha_server::{OmahaResponse, OmahaServer, PrivateKeyAndId, PrivateKeys, ResponseAndMetadata};
+    use omaha_client::app_set::VecAppSet;
+    use omaha_client::common::App;
+    use omaha_client::configuration::{Config, Updater};
+    use omaha_client::cup_ecdsa::{Cupv2RequestHandler, RequestMetadata, StandardCupv2Handler};
+    use omaha_client::http_request::{Error as HttpError, HttpRequest};
+    use omaha_client::metrics::StubMetricsReporter;
+    use omaha_client::policy::StubPolicyEngine;
+    use omaha_client::protocol::request::{Event, EventType, OS};
+    use omaha_client::protocol::response::{parse_json_response, OmahaStatus};
+    use omaha_client::request_builder::{RequestBuilder, RequestParams};
+    use omaha_client::state_machine::{State, StateMachineBuilder, StateMachineEvent, UpdateCheckError};
+    use omaha_client::storage::MemStorage;
+    use omaha_client::time::{timers::StubTimer, StandardTimeSource};
+    use omaha_client::version::Version;
+    use std::rc::Rc;
+    use std::sync::Arc;
+    use tokio::sync::Mutex;
+
+    fn kind(k: &str) -> OmahaResponse {
+        match k {
+            "Update" => OmahaResponse::Update,
+            "UrgentUpdate" => OmahaResponse::UrgentUpdate,
+            "InvalidResponse" => OmahaResponse::InvalidResponse,
+            "InvalidURL" => OmahaResponse::InvalidURL,
+            _ => OmahaResponse::NoUpdate,
+        }
+    }
+
+    fn server_keys(k: &Value) -> PrivateKeys {
+        PrivateKeys {
+            latest: PrivateKeyAndId { id: k["latest"].as_u64().unwrap(), key: signer::key(k["latest"].as_u64().unwrap() as u8) },
+            historical: k["hist"].as_array().unwrap().iter().map(|x| PrivateKeyAndId { id: x.as_u64().unwrap(), key: signer::key(x.as_u64().unwrap() as u8) }).collect(),
+        }
+    }
+
+    fn map_of(m: &Value) -> std::collections::HashMap<String, ResponseAndMetadata> {
+        m.as_array().unwrap().iter().map(|e| {
+            (e["id"].as_str().unwrap().to_string(),
+             ResponseAndMetadata { response: kind(e["kind"].as_str().unwrap()), version: None, ..Default::default() })
+        }).collect()
+    }
+
+    fn map_json(m: &Value) -> Value {
+        let mut o = serde_json::Map::new();
+        for e in m.as_array().unwrap() {
+            o.insert(e["id"].as_str().unwrap().to_string(),
+                     json!({"response": e["kind"], "check_assertion": "UpdatesEnabled", "version": Value::Null, "cohort_assertion": Value::Null,
+                            "codebase": "fuchsia-pkg://integration.test.fuchsia.com/", "package_name": "update?hash=abc"}));
+        }
+        Value::Object(o)
+    }
+
+    fn config(url: &str) -> Config {
+        Config {
+            updater: Updater { name: "mock-client".into(), version: Version::from([1, 0]) },
+            os: OS { platform: "p".into(), version: "v".into(), service_pack: "s".into(), arch: "a".into() },
+            service_url: format!("http://mock.example{}", url),
+            omaha_public_keys: None,
+        }
+    }
+
+    /// origin-form request (what a real HTTP client puts on the wire) handed to the server in-process
+    async fn serve(server: &Mutex<OmahaServer>, req: http::Request<hyper::Body>) -> Result<http::Response<Vec<u8>>, String> {
+        let (mut parts, body) = req.into_parts();
+        let pq = parts.uri.path_and_query().map(|p| p.as_str().to_string()).unwrap_or_else(|| "/".into());
+        parts.uri = pq.parse().map_err(|e| format!("origin-form uri: {:?}", e))?;
+        let req = http::Request::from_parts(parts, body);
+        let resp = mock_omaha_server::handle_request(req, server).await.map_err(|e| e.to_string())?;
+        let (p, b) = resp.into_parts();
+        let bytes = hyper::body::to_bytes(b).await.map_err(|e| e.to_string())?.to_vec();
+        Ok(http::Response::from_parts(p, bytes))
+    }
+
+    struct MockHttp(Arc<Mutex<OmahaServer>>);
+    impl HttpRequest for MockHttp {
+        fn request(&mut self, req: hyper::Request<hyper::Body>) -> BoxFuture<'_, Result<hyper::Response<Vec<u8>>, HttpError>> {
+            let s = self.0.clone();
+            async move {
+                match serve(&s, req).await {
+                    Ok(r) => Ok(r),
+                    Err(_) => Err(omaha_client::http_request::mock_errors::make_transport_error()),
+                }
+            }
+            .boxed()
+        }
+    }
+
+    /// a contract-conforming installer: exactly one result per app that was offered an update
+    struct NPlan(usize);
+    impl omaha_client::installer::Plan for NPlan {
+        fn id(&self) -> String {
+            "mock-plan".into()
+        }
+    }
+    #[derive(Debug)]
+    struct NErr;
+    impl std::fmt::Display for NErr {
+        fn fmt(&self, f: &mut std::fmt::Formatter<'_>) -> std::fmt::Result {
+            write!(f, "nerr")
+        }
+    }
+    impl std::error::Error for NErr {}
+    struct NInstaller;
+    impl omaha_client::installer::Installer for NInstaller {
+        type InstallPlan = NPlan;
+        type InstallResult = ();
+        type Error = NErr;
+        fn perform_install<'a>(
+            &'a mut self,
+            plan: &'a NPlan,
+            _o: Option<&'a dyn omaha_client::installer::ProgressObserver>,
+        ) -> futures::future::LocalBoxFuture<'a, ((), Vec<omaha_client::installer::AppInstallResult<NErr>>)> {
+            future::ready(((), (0..plan.0).map(|_| omaha_client::installer::AppInstallResult::Installed).collect())).boxed_local()
+        }
+        fn perform_reboot(&mut self) -> futures::future::LocalBoxFuture<'_, Result<(), anyhow::Error>> {
+            future::ready(Ok(())).boxed_local()
+        }
+        fn try_create_install_plan<'a>(
+            &'a self,
+            _p: &'a RequestParams,
+            _m: Option<&'a RequestMetadata>,
+            response: &'a omaha_client::protocol::response::Response,
+            _b: Vec<u8>,
+            _s: Option<Vec<u8>>,
+        ) -> futures::future::LocalBoxFuture<'a, Result<NPlan, NErr>> {
+            let n = response.apps.iter().filter(|a| matches!(&a.update_check, Some(u) if u.status == OmahaStatus::Ok)).count();
+            future::ready(Ok(NPlan(n))).boxed_local()
+        }
+    }
+
+    fn apps_in(order: &Value) -> Vec<App> {
+        order.as_array().unwrap().iter().map(|id| App::builder().id(id.as_str().unwrap()).version([0, 1, 2, 3]).build()).collect()
+    }
+
+    pub fn run(vec_path: &str, out_path: &str) {
+        let mut out = Out::new(out_path);
+        for v in vectors(vec_path) {
+            out.n += 1;
+            let r = guarded(|| -> Vec<(String, Value)> {
+                let mut bad = vec![];
+                let url = v["url"].as_str().unwrap();
+                let ck = v["ck"].as_u64().unwrap();
+                let cfg = config(url);
+                let handler = if ck == 0 { None } else { Some(StandardCupv2Handler::new(&public_keys(ck, &[]))) };
+                let server = Arc::new(Mutex::new(OmahaServer {
+                    responses_by_appid: map_of(&v["m0"]),
+                    private_keys: server_keys(&v["keys"]),
+                    etag_override: None,
+                    require_cup: false,
+                }));
+                let mut exchanges: Vec<(RequestMetadata, http::Response<Vec<u8>>)> = vec![];
+                for st in v["steps"].as_array().unwrap() {
+                    match st["op"].as_str().unwrap() {
+                        "set" => {
+                            let req = http::Request::post("/set_responses_by_appid").body(hyper::Body::from(map_json(&st["map"]).to_string())).unwrap();
+                            let r = futures::executor::block_on(mock_omaha_server::handle_request(req, &server));
+                            if r.map(|x| x.status().as_u16()).unwrap_or(0) != 200 {
+                                bad.push(("reconfiguration request failed".into(), json!(st)));
+                            }
+                        }
+                        "req" => {
+                            let params = RequestParams::default();
+                            let apps = apps_in(&st["order"]);
+                            let mut b = RequestBuilder::new(&cfg, &params);
+                            for a in &apps {
+                                b = if st["rk"] == "uc" { b.add_update_check(a).add_ping(a) } else { b.add_event(a, Event::success(EventType::UpdateComplete)) };
+                            }
+                            let (req, meta) = match b.build(handler.as_ref()) {
+                                Ok(x) => x,
+                                Err(e) => {
+                                    bad.push(("client could not build the request".into(), json!(e.to_string())));
+                                    continue;
+                                }
+                            };
+                            let resp = match futures::executor::block_on(serve(&server, req)) {
+                                Ok(r) => r,
+                                Err(e) => {
+                                    bad.push(("server failed".into(), json!(e)));
+                                    continue;
+                                }
+                            };
+                            let exp = &st["exp"];
+                            if resp.status().as_u16() != 200 {
+                                bad.push(("status".into(), json!(resp.status().as_u16())));
+                            }
+                            match (parse_json_response(resp.body()), exp["parses"].as_bool().unwrap()) {
+                                (Ok(doc), true) => {
+                                    let ids: Vec<String> = doc.apps.iter().map(|a| a.id.clone()).collect();
+                                    let want: Vec<String> = exp["apps"].as_array().unwrap().iter().map(|a| a["id"].as_str().unwrap().to_string()).collect();
+                                    if ids != want {
+                                        bad.push(("the answer does not list exactly the requested apps in request order".into(), json!(ids)));
+                                    } else {
+                                        for (a, e) in doc.apps.iter().zip(exp["apps"].as_array().unwrap()) {
+                                            let k = e["kind"].as_str().unwrap();
+                                            let okk = match (k, &a.update_check) {
+                                                ("none", None) => true,
+                                                ("NoUpdate", Some(u)) => u.status == OmahaStatus::NoUpdate && u.manifest.is_none(),
+                                                ("Update", Some(u)) => u.status == OmahaStatus::Ok && u.manifest.is_some() && !u.extra_attributes.contains_key("_urgent_update"),
+                                                ("UrgentUpdate", Some(u)) => u.status == OmahaStatus::Ok && u.manifest.is_some() && u.extra_attributes.get("_urgent_update") == Some(&json!(true)),
+                                                ("InvalidURL", Some(u)) => u.status == OmahaStatus::Ok && u.get_all_url_codebases().next() == Some("http://integration.test.fuchsia.com/"),
+                                                _ => false,
+                                            };
+                                            if !okk {
+                                                bad.push(("an app is not answered with the configured decision".into(), json!({"app": a.id, "kind": k})));
+                                            }
+                                        }
+                                    }
+                                }
+                                (Err(_), false) => {}
+                                (Ok(_), false) => bad.push(("the client parser accepts a response configured to be invalid".into(), json!(st))),
+                                (Err(e), true) => bad.push(("the client parser rejects the server's document".into(), json!(e.to_string()))),
+                            }
+                            let has_etag = resp.headers().contains_key("etag");
+                            if has_etag != exp["etag"].as_bool().unwrap() {
+                                bad.push(("ETag presence differs (expected iff the request carried a cup2key for a key the server holds)".into(), json!(has_etag)));
+                            }
+                            if let (Some(h), Some(m)) = (handler.as_ref(), meta) {
+                                if has_etag {
+                                    if let Err(e) = h.verify_response(&m, &resp, m.public_key_id) {
+                                        bad.push(("the client verifier rejects the server's ETag for this exchange".into(), json!(format!("{:?}", e))));
+                                    }
+                                    for (om, or) in &exchanges {
+                                        if h.verify_response(om, &resp, om.public_key_id).is_ok() || h.verify_response(&m, or, m.public_key_id).is_ok() {
+                                            bad.push(("an ETag verifies for another exchange of the history".into(), json!(st)));
+                                        }
+                                    }
+                                    exchanges.push((m, resp));
+                                }
+                            }
+                        }
+                        _ => {}
+                    }
+                }
+                // drive the real state machine against the in-process server (one update check)
+                // (under the response map in force at the end of the history)
+                {
+                    let last = &v["final"];
+                    let apps = apps_in(&last["order"]);
+                    let cup = if ck == 0 { None } else { Some(StandardCupv2Handler::new(&public_keys(ck, &[]))) };
+                    let events: Vec<StateMachineEvent> = futures::executor::block_on(async {
+                        StateMachineBuilder::new(
+                            StubPolicyEngine::<NPlan, StandardTimeSource>::new(StandardTimeSource),
+                            MockHttp(server.clone()),
+                            NInstaller,
+                            StubTimer,
+                            StubMetricsReporter,
+                            Rc::new(futures::lock::Mutex::new(MemStorage::new())),
+                            cfg.clone(),
+                            Rc::new(futures::lock::Mutex::new(VecAppSet::new(apps))),
+                            cup,
+                        )
+                        .oneshot_check()
+                        .await
+                        .collect()
+                        .await
+                    });
+                    let mut states = vec![];
+                    let mut result = "none".to_string();
+                    for e in &events {
+                        match e {
+                            StateMachineEvent::StateChange(s) => states.push(*s),
+                            StateMachineEvent::UpdateCheckResult(Ok(r)) => {
+                                result = if r.app_responses.iter().any(|a| a.result == omaha_client::state_machine::update_check::Action::Updated) { "update".into() } else { "noupdate".into() };
+                            }
+                            StateMachineEvent::UpdateCheckResult(Err(UpdateCheckError::ResponseParser(_))) => result = "parse-error".into(),
+                            StateMachineEvent::UpdateCheckResult(Err(UpdateCheckError::OmahaRequest(omaha_client::state_machine::OmahaRequestError::CupValidation(_)))) => result = "cup-error".into(),
+                            StateMachineEvent::UpdateCheckResult(Err(e)) => result = format!("{:?}", e),
+                            _ => {}
+                        }
+                    }
+                    let want = last["outcome"].as_str().unwrap();
+                    let states_ok = match want {
+                        "update" => states.contains(&State::InstallingUpdate),
+                        "noupdate" => states.contains(&State::NoUpdateAvailable),
+                        _ => states.contains(&State::ErrorCheckingForUpdate),
+                    };
+                    if result != want || !states_ok {
+                        bad.push(("the state machine run against the mock does not reach the configured outcome".into(), json!({"want": want, "got": result})));
+                    }
+                }
+                bad
+            });
+            match r {
+                Ok(bads) => {
+                    for (w, g) in bads {
+                        out.bad(&w, &v, g);
+                    }
+                }
+                Err(p) => out.bad("panic (the mock server or the client aborted)", &v, json!(p)),
+            }
+        }
+        out.finish();
+    }
+}
+pub use mock::run as mock;
